@@ -453,7 +453,73 @@ def _judge(ctx, case, t, signed, m, spk, amount, where, flags, kf=None):
                      case, kf=kf)
 
 
+def check_many(ctx, case):
+    """Wallets with more than ten cosigners (P2SH allows 15 keys), seen from one cosigner: the addresses handed out
+    before and after the wallet is reopened are the addresses of the reference m-of-n script - keys sorted, or in the
+    order the cosigners were given when the wallet was made with sort_keys=False."""
+    import os
+    from props import wallet_util as wu
+    from ref import bip32
+    from bitcoinlib.wallets import Wallet
+    from bitcoinlib.keys import HDKey
+    wu.quiet_logging()
+    n, m, wt, sort = case['n'], case['m'], case['witness_type'], case['sort']
+    me = case.get('me', 0)
+    with wu.deterministic_gc():
+        hks = [HDKey.from_seed(bytes.fromhex(s), network=NET, witness_type=wt, multisig=True) for s in case['seeds']]
+        uri, path = wu.db_uri('c10many-%d-%d' % (os.getpid(), ctx.evaluations))
+        keys = [hks[j] if j == me else hks[j].public_master(multisig=True) for j in range(n)]
+        try:
+            w = Wallet.create('w', keys, sigs_required=m, network=NET, witness_type=wt, db_uri=uri, sort_keys=sort)
+        except Exception as e:
+            ctx.refusal('many.create.%s' % type(e).__name__)
+            return
+
+        def want(change, index):
+            pubs = []
+            for sd in case['seeds']:
+                master = bip32.master(bytes.fromhex(sd))
+                if wt == 'legacy':
+                    p_ = [HARD + 45, 0, change, index]
+                else:
+                    p_ = [HARD + 48, HARD + wu.coin_type(NET), HARD + 0, HARD + (2 if wt == 'segwit' else 1), change,
+                          index]
+                pubs.append(bip32.derive(master, p_).pub)
+            if sort:
+                pubs.sort()
+            return wu.multisig_address(m, pubs, wt, NET)[0]
+        try:
+            kw = {'cosigner_id': 0} if wt == 'legacy' else {}
+            got = []
+            for step in range(4):
+                if step == 2:
+                    wu.close_wallet(w)
+                    w = Wallet('w', db_uri=uri)
+                k = w.new_key(**kw) if (step or wt == 'legacy') else w.get_key()
+                got.append((step, k.address_index, k.address))
+            for step, idx, addr in got:
+                exp = want(0, idx)
+                if addr != exp:
+                    raise Discrepancy('many.address:%s' % ('after_reopen' if step >= 2 else 'fresh'),
+                                      '%d-of-%d wallet (%s, sort_keys=%r): key index %d handed out %s is %s, the '
+                                      'reference script of the %d cosigner keys gives %s' %
+                                      (m, n, wt, sort, idx, 'after reopening the wallet' if step >= 2 else 'before reopen',
+                                       addr, n, exp), case)
+            if len(set(i for _, i, _ in got)) != len(got):
+                raise Discrepancy('many.index_repeated', 'indices %r' % [i for _, i, _ in got], case)
+            ctx.count()
+            ctx.klass('many.%d_cosigners.sort_%s' % (n, sort))
+        finally:
+            wu.close_wallet(w)
+            try:
+                os.remove(path)
+            except OSError:
+                pass
+
+
 def replay(ctx, case):
+    if case.get('kind') == 'many':
+        return check_many(ctx, case)
     run_case(ctx, case)
 
 
@@ -514,3 +580,13 @@ def run(ctx):
         if len(ctx.samples) < 2:
             ctx.sample(case)
     ctx.run_given('ceremony', _strategy(ctx), prop, ctx.scale(5, 60), shrink=ctx.tier == 'thorough')
+    # more than ten cosigners: one directed case per shard (quick), the whole grid in the thorough tier
+    grid = [(n_, wt_, sort_) for n_ in (11, 12, 15) for wt_ in ('legacy', 'segwit', 'p2sh-segwit')
+            for sort_ in (False, True)]
+    for gi, (n_, wt_, sort_) in enumerate(grid):
+        if gi % ctx.nshards != ctx.shard:
+            continue
+        case = {'kind': 'many', 'n': n_, 'm': 2 + gi % 3, 'witness_type': wt_, 'sort': sort_, 'me': gi % n_,
+                'seeds': ['%032x' % (1000 * gi + j + 1) for j in range(n_)]}
+        ctx.nt(('many', n_, wt_, sort_))
+        ctx.guard(lambda c: check_many(ctx, c), case)
